@@ -189,7 +189,15 @@ def run(V, tier, want, cfg="Layouts_cli.cfg"):
                     V.violation(e3, "textDocument/definition differs from pytest's resolution and from every order the model predicts")
             if "c05" in want:
                 d = rec["definition"]
-                if rec["implementation"] != d or rec["prepare"] != d:
+                # go-to-implementation lands where the fixture yields its value (generator fixtures), else on the def line
+                d_impl = d
+                if d is not None:
+                    dsl = next((sl for sl in ctx.files if CLI.rel_of_slot(sl) == d[0]), None)
+                    if dsl is not None:
+                        didx = ctx.files[dsl].line_item.get(d[1])
+                        if didx in ctx.files[dsl].yield_line:
+                            d_impl = (d[0], ctx.files[dsl].yield_line[didx])
+                if rec["implementation"] != d_impl or rec["prepare"] != d:
                     V.violation(e2, "definition, implementation and prepareCallHierarchy denote different definitions at one position")
                 if d is not None:
                     hv = rec["hover"] or ""
